@@ -891,6 +891,14 @@ impl Xot {
                 "Cannot add children to non-element and non-document node".into(),
             ));
         }
+        // indextree only guards append and prepend against cycles (and prepend
+        // inserts after the last attribute node when there is one), so check
+        // here, before anything is touched
+        if self.ancestors(parent).any(|ancestor| ancestor == child) {
+            return Err(Error::InvalidOperation(
+                "Cannot move node under itself or one of its descendants".into(),
+            ));
+        }
         match self.value_type(child) {
             ValueType::Document => {
                 return Err(Error::InvalidOperation("Cannot move document node".into()));
